@@ -459,6 +459,12 @@ func (e *engine) Generate(seed uint64, idx int, tier string, avoid []harness.Fin
 			avoidKinds[strings.TrimPrefix(f.Trigger, "nontail:")] = true
 		}
 	}
+	// do-all-symbols walks every package of the process: the number of
+	// probe events of such a case depends on what earlier cases of the same
+	// process defined (determinism self-test, case 34 of seed 7). The form
+	// shares its loop with do-symbols (one helper, fix 1655ba1); the generator
+	// keeps to the two packages of fixed size.
+	renameKind(&c.Prog, "doall", "dosym")
 	for _, f := range avoid {
 		if k, ok := strings.CutPrefix(f.Trigger, "node:"); ok {
 			// a node kind masked by an active finding is rendered as the plain
@@ -478,7 +484,7 @@ func (e *engine) Generate(seed uint64, idx int, tier string, avoid []harness.Fin
 	c.Policy = []string{sched.PolicyRandom, sched.PolicyRandom, sched.PolicyPCT, sched.PolicyRTB, sched.PolicyRR}[r.Intn(5)]
 	c.SwitchPct = []int{5, 20, 50, 90}[r.Intn(4)]
 	c.YieldPct = []int{0, 5, 25}[r.Intn(3)]
-	if r.Pct(15) && twinnable(&c.Prog) {
+	if r.Pct(22) && twinnable(&c.Prog) {
 		c.Twin = true
 		c.SwitchPct = []int{50, 90}[r.Intn(2)]
 		c.YieldPct = []int{25, 100}[r.Intn(2)]
